@@ -477,6 +477,10 @@ func tierBudget(prop, tier string) int {
 	if tier == "thorough" {
 		return 900
 	}
+	if prop == "C01" {
+		// the broadest input space (and a quarter of its workers run the slower race build)
+		return 120
+	}
 	return 75
 }
 
